@@ -125,6 +125,7 @@ class KidModel:
 
     def __init__(self, fixture):
         self.fixture = fixture
+        self.replay_id = {"cls": "KidModel", "fixture": fixture}
 
     def make(self):
         f = self.fixture
@@ -259,6 +260,10 @@ class KidModel:
             vs.append(viol(f"automatic kid of a second key is not its thumbprint [{f}]",
                            f"history {hist + (op,)}: second key kid {obs['k2_kid']!r}, its thumbprint {obs['k2_want']!r}"))
         return vs
+
+
+def make_model(desc):
+    return KidModel(desc["fixture"])
 
 
 def kid_histories(tier):
